@@ -122,6 +122,7 @@ def parse(text):
                         rw['orig'] += s[len('//@<'):] + '\n'
                     elif s == '//@>':
                         # inline annotations are allowed inside a replacement: strip the delimiters
+                        rw['raw'] = rw['text']
                         rw['code'] = INLINE.sub('', rw['text'])
                         rw['text'] = INLINE.sub(lambda m_: m_.group(1), rw['text'])
                         reg.segs.append(rw)
@@ -210,6 +211,46 @@ def check_rules(reg):
 GHOST_BLOCK = re.compile(r'//@g\+.*?//@g-[^\n]*\n', re.S)
 
 
+RW_ANNOT = re.compile(r'//@g\+[^\n]*\n(.*?)//@g-[^\n]*\n|/\*@\+(.*?)@\*/', re.S)
+
+
+def reweave_rw(raw, new_text):
+    """re-attach the annotations (ghost blocks, inline annotations) of a rewrite replacement `raw` to the text `new_text` the rule
+    generates from the EDITED original: each annotation stays in front of the image of the code token it preceded (token-level diff
+    between the old and the new rule output)."""
+    old_toks = []
+    annots = []     # (position in old_toks, kind, text)
+    pos = 0
+    for m in RW_ANNOT.finditer(raw):
+        old_toks += texts(lex(raw[pos:m.start()])[0])
+        if m.group(1) is not None:
+            annots.append((len(old_toks), 'ghost', m.group(1)))
+        else:
+            annots.append((len(old_toks), 'inline', m.group(2)))
+        pos = m.end()
+    old_toks += texts(lex(raw[pos:])[0])
+    new_toks = texts(lex(new_text)[0])
+    ops = difflib.SequenceMatcher(a=old_toks, b=new_toks, autojunk=False).get_opcodes()
+
+    def image(k):
+        if k >= len(old_toks):
+            return len(new_toks)
+        for (tag, i1, i2, j1, j2) in ops:
+            if i1 <= k < i2:
+                return j1 + (k - i1) if tag == 'equal' else j1
+        return len(new_toks)
+    ins = {}
+    for (k, kind, text) in annots:
+        ins.setdefault(image(k), []).append((kind, text))
+    out = []
+    for j in range(len(new_toks) + 1):
+        for (kind, text) in ins.get(j, []):
+            out.append('\n' + text + '\n' if kind == 'ghost' else ' ' + text + ' ')
+        if j < len(new_toks):
+            out.append(' ' + new_toks[j])
+    return ''.join(out) + '\n'
+
+
 def strip_ghost(text):
     """inside a rewrite replacement, lines between //@g+ and //@g- are annotations (ghost), not part of the rule output"""
     return GHOST_BLOCK.sub('', text)
@@ -288,13 +329,8 @@ def weave(reg, cur_toks):
                     new_text = gen(seg['rule'], new_orig)
                 except rules.NoMatch as e:
                     raise Undecided('REWEAVE-RW: rule %s no longer matches edited code in %s: %s' % (rule, reg.name, e))
-                # ghost lines of the replacement are re-attached at the end of the regenerated head
-                ghosts = ''.join(GHOST_BLOCK.findall(seg['text']))
-                nt = new_text.rstrip()
-                if nt.endswith('{') and ghosts:
-                    replaced.append((j1, j2, nt[:-1] + '\n' + ghosts + '{\n'))
-                else:
-                    replaced.append((j1, j2, new_text + '\n' + ghosts))
+                # ghost lines / inline annotations of the replacement are re-attached by a token diff of old vs new rule output
+                replaced.append((j1, j2, reweave_rw(seg.get('raw', seg['text']), new_text)))
     # a code line with inline annotations whose tokens changed: flagged (the annotation is still placed by anchor)
     out = []
     rep_at = {j1: (j2, txt) for (j1, j2, txt) in replaced}
